@@ -73,12 +73,13 @@ def build(h, file=None):
                 attrs['h_ref'] = Optional('H', reverse='ref0')
                 attrs['h_refs'] = Set('H', reverse='refs0')
                 attrs['owner'] = Optional('H', reverse='many')
+                attrs['h_mrefs'] = Set('H', reverse='mref')          # many-to-one: the foreign key lives in H, the target is first seen as a seed
             if h['mode'] == 'int' and i not in singleton: attrs['kind'] = Discriminator(int, column='knd')
             if h['mode'] == 'strcol' and i not in singleton: attrs['dt'] = Discriminator(str, column='dtype')
         if i == subk: attrs['h_sub'] = Optional('H', reverse='sub')
         if h['vals'][i] is not None and i not in singleton: attrs['_discriminator_'] = h['vals'][i]
         E.append(type('E%d' % i, tuple(E[b] for b in h['bases'][i]) or (db.Entity,), attrs))
-    hattrs = {'ref0': Optional('E0'), 'refs0': Set('E0'), 'many': Set('E0')}
+    hattrs = {'ref0': Optional('E0'), 'refs0': Set('E0'), 'many': Set('E0'), 'mref': Optional('E0')}
     if subk is not None: hattrs['sub'] = Optional('E%d' % subk)
     H = type('H', (db.Entity,), hattrs)
     db.bind('sqlite', file or ':memory:', **({'create_db': True} if file else {}))
@@ -214,6 +215,7 @@ def populate(rng, h, db, E, H):
             free = [o for o in tree0 if o.h_ref is None and not any(hh[1].get('ref0') is o for hh in hs)]
             if free and rng.random() < 0.85: kw['ref0'] = rng.choice(free)
             kw['refs0'] = [o for o in tree0 if rng.random() < 0.6]
+            if rng.random() < 0.85: kw['mref'] = rng.choice(tree0)
             mine = [o for o in tree0 if o not in owned and rng.random() < 0.5]
             owned.update(mine); kw['many'] = mine
             if h.get('subk') is not None:
@@ -224,14 +226,14 @@ def populate(rng, h, db, E, H):
         for o, i in objs: w.cls[(h['root'][i], o.id)] = i; w.a[(h['root'][i], o.id)] = o.a
         for hh, kw in hs:
             w.holders[hh.id] = {'ref0': kw['ref0'].id if kw.get('ref0') is not None else None, 'refs0': sorted(o.id for o in kw['refs0']),
-                                'many': sorted(o.id for o in kw['many']), 'sub': kw['sub'].id if kw.get('sub') is not None else None}
+                                'many': sorted(o.id for o in kw['many']), 'mref': kw['mref'].id if kw.get('mref') is not None else None, 'sub': kw['sub'].id if kw.get('sub') is not None else None}
     return w
 
 
 class Checker:
     def __init__(self, ctx, h, db, E, H, w):
         self.ctx = ctx; self.h = h; self.db = db; self.E = E; self.H = H; self.w = w
-        self.trace = []
+        self.trace = []; self.broken = False
     def name(self, i): return 'E%d' % i
     def fail(self, kind, what, detail, observed, expected, key=None):
         self.ctx.count('oracle-fail:' + (key or kind))
@@ -261,6 +263,16 @@ class Checker:
 
     # ---- steps (each runs inside the caller's db_session)
     def step(self, rng, kind):
+        """one access path; an exception of the real code on a path where the object exists is a failure of the property, not of the harness"""
+        try:
+            return self._step(rng, kind)
+        except AssertionError: raise
+        except Exception as e:
+            self.fail(kind, 'reaching a stored object through %s raised %s' % (kind, type(e).__name__), str(e)[:200], 'raised ' + type(e).__name__, 'the stored object(s)')
+            self.broken = True
+            return None
+
+    def _step(self, rng, kind):
         h, E, H, w = self.h, self.E, self.H, self.w
         n = h['n']
         self.trace.append(kind)
@@ -299,16 +311,16 @@ class Checker:
             elif kind == 'select-filter': objs = select('x for x in C if x.a >= 0', {'C': E[c]})[:]
             else: objs = E[c].select()[:]
             self.check_set(kind, objs, root, self.extent(c), [self.name(c)])
-        elif kind in ('ref', 'holder-first-ref', 'sub-ref'):
+        elif kind in ('ref', 'holder-first-ref', 'sub-ref', 'mref', 'holder-first-mref'):
             hid = rng.choice(sorted(w.holders))
-            if kind == 'holder-first-ref': hs = select('hh for hh in H', {'H': H})[:]      # every holder loaded: referenced objects are seeds now
+            if kind.startswith('holder-first'): hs = select('hh for hh in H', {'H': H})[:]      # every holder loaded: referenced objects are seeds now
             hh = H[hid]
-            attr = 'sub' if kind == 'sub-ref' else 'ref0'
+            attr = 'sub' if kind == 'sub-ref' else 'mref' if kind.endswith('mref') else 'ref0'
             if kind == 'sub-ref' and h.get('subk') is None: return
             o = getattr(hh, attr)
             exp = w.holders[hid][attr]
             if (o.id if o is not None else None) != exp: self.fail(kind, 'reference attribute holds another object', [hid, attr], o.id if o is not None else None, exp)
-            elif o is not None: self.check_type(kind, o, 0 if attr == 'ref0' else h['root'][h['subk']], [hid, attr])
+            elif o is not None: self.check_type(kind, o, h['root'][h['subk']] if attr == 'sub' else 0, [hid, attr])
         elif kind in ('m2m-items', 'm2m-items-then-touch', 'o2m-items'):
             hid = rng.choice(sorted(w.holders))
             attr = 'many' if kind == 'o2m-items' else 'refs0'
@@ -317,7 +329,10 @@ class Checker:
                 for o in items: o.a                      # any attribute read loads the row and lets the identity map refine the class
             self.check_set(kind, items, 0, w.holders[hid][attr], [hid, attr], key='m2m-items-not-refined' if kind == 'm2m-items' else None)
         elif kind in ('query-ref', 'query-m2m', 'query-o2m'):
-            if kind == 'query-ref':
+            if kind == 'query-ref' and rng.random() < 0.5:
+                objs = select('hh.mref for hh in H if hh.mref is not None', {'H': H})[:]
+                exp = sorted({v['mref'] for v in w.holders.values() if v['mref'] is not None})
+            elif kind == 'query-ref':
                 objs = select('hh.ref0 for hh in H if hh.ref0 is not None', {'H': H})[:]
                 exp = [v['ref0'] for v in w.holders.values() if v['ref0'] is not None]
             elif kind == 'query-m2m':
@@ -354,7 +369,7 @@ def isinstance_py(h, r, classes):
 
 
 STEPS = ['index', 'index', 'get-pk', 'get-attr', 'by-sql', 'get-by-sql', 'index-miss', 'select', 'select', 'select-filter', 'select-all-method',
-         'ref', 'holder-first-ref', 'sub-ref', 'm2m-items', 'm2m-items-then-touch', 'o2m-items', 'query-ref', 'query-m2m', 'query-o2m',
+         'ref', 'holder-first-ref', 'sub-ref', 'mref', 'mref', 'holder-first-mref', 'm2m-items', 'm2m-items-then-touch', 'o2m-items', 'query-ref', 'query-m2m', 'query-o2m',
          'isinstance', 'isinstance', 'isinstance']
 
 
@@ -369,6 +384,7 @@ def one_world(ctx, h, reqs, checks):
             ck = Checker(ctx, h, db, E, H, w)
             with db_session:
                 for _ in range(rng.choice([1, 2, 3, 5, 8])):
+                    if ck.broken: break
                     r = ck.step(rng, rng.choice(STEPS))
                     if r and not r[3]:          # the AST tie is done on the un-negated form
                         _, c, classes, neg, q = r
@@ -390,7 +406,7 @@ def witnesses(ctx):
     db, E, H = build(h)
     with db_session:
         o = E[1](a=1); hh = H(refs0=[o]); flush(); pk, hid = o.id, hh.id
-    w = World(); w.cls[(0, pk)] = 1; w.a[(0, pk)] = 1; w.holders[hid] = {'ref0': None, 'refs0': [pk], 'many': [], 'sub': None}
+    w = World(); w.cls[(0, pk)] = 1; w.a[(0, pk)] = 1; w.holders[hid] = {'ref0': None, 'refs0': [pk], 'many': [], 'mref': None, 'sub': None}
     ck = Checker(ctx, h, db, E, H, w); ck.trace.append('m2m-items')
     with db_session:
         items = list(H[hid].refs0)
